@@ -62,6 +62,16 @@ func (g *msgGen) u32() uint32 {
 
 func (g *msgGen) hash() bitcoin.Hash32 {
 	g.n++
+	switch g.t.Choose(16) {
+	case 0, 1: // boundary values: a present hash may be all zero
+		return bitcoin.Hash32{}
+	case 2:
+		var h bitcoin.Hash32
+		for i := range h {
+			h[i] = 0xff
+		}
+		return h
+	}
 	return dsha([]byte(fmt.Sprint("gen", g.n, g.t.Raw())))
 }
 
@@ -177,7 +187,7 @@ func (g *msgGen) payload(typ uint64) client.MessagePayload {
 		var pds [][]byte
 		n := g.length() % 9
 		for i := 0; i < n; i++ {
-			pds = append(pds, g.bytes([]int{0, 1, 20, 32, 75, 76, 0xfd, 600}[t.Choose(8)]))
+			pds = append(pds, g.bytes([]int{0, 1, 20, 32, 75, 76, 0xfd, 600, 4096, 4097, 9000}[t.Choose(11)]))
 		}
 		if typ == client.MessageTypeSubscribePushData {
 			return &client.SubscribePushData{PushDatas: pds}
@@ -294,7 +304,7 @@ func (g *msgGen) payload(typ uint64) client.MessagePayload {
 		}
 		return a
 	case client.MessageTypeReject:
-		r := &client.Reject{MessageType: g.u64(), Code: client.RejectCode(g.u32()), Message: string(g.bytes(g.length() % 400))}
+		r := &client.Reject{MessageType: g.u64(), Code: client.RejectCode(g.u32()), Message: string(g.bytes([]int{g.length() % 400, g.length() % 400, g.length() % 400, 4096, 4097, 6000}[t.Choose(6)]))}
 		if t.Bool(1, 2) {
 			h := g.hash()
 			r.Hash = &h
